@@ -15,10 +15,10 @@ func ids(m map[string]string, names ...string) map[string]string {
 
 func decPrefSites(name, file, recv string) []guardSite {
 	return []guardSite{
-		{Name: name + "_EncodeLength", File: file, Recv: recv, Func: "EncodeLength",
+		{Name: name + "_EncodeLength", Sig: []string{"p", "maxLen", "dataLen"}, File: file, Recv: recv, Func: "EncodeLength",
 			Params: []string{"maxLen", "dataLen", "digits"},
 			Map:    ids(map[string]string{"p.Digits": "digits", "p.digits": "digits", "len(strconv.Itoa(dataLen))": "(itoaLen dataLen)"}, "maxLen", "dataLen")},
-		{Name: name + "_DecodeLength", File: file, Recv: recv, Func: "DecodeLength",
+		{Name: name + "_DecodeLength", Sig: []string{"p", "maxLen", "data"}, DefBy: map[string]string{"strconv.Atoi": "dataLen"}, File: file, Recv: recv, Func: "DecodeLength",
 			Params: []string{"maxLen", "dlen", "digits", "dataLen"},
 			Map: ids(map[string]string{"p.Digits": "digits", "p.digits": "digits", "len(data)": "dlen",
 				"bcd.EncodedLen(p.Digits)": "((digits + 1) / 2)"}, "maxLen", "dataLen")},
@@ -32,23 +32,23 @@ func genGuards() {
 	pref = append(pref, decPrefSites("ebcdic1047", "prefix/ebcdic1047.go", "ebcdic1047Prefixer")...)
 	pref = append(pref, decPrefSites("bcd", "prefix/bcd.go", "bcdVarPrefixer")...)
 	pref = append(pref,
-		guardSite{Name: "binary_EncodeLength", File: "prefix/binary.go", Recv: "binaryVarPrefixer", Func: "EncodeLength",
+		guardSite{Name: "binary_EncodeLength", Sig: []string{"p", "maxLen", "dataLen"}, File: "prefix/binary.go", Recv: "binaryVarPrefixer", Func: "EncodeLength",
 			Params: []string{"maxLen", "dataLen", "digits", "reslen"},
 			Map:    ids(map[string]string{"p.Digits": "digits", "len(res)": "reslen"}, "maxLen", "dataLen")},
-		guardSite{Name: "binary_DecodeLength", File: "prefix/binary.go", Recv: "binaryVarPrefixer", Func: "DecodeLength",
+		guardSite{Name: "binary_DecodeLength", Sig: []string{"p", "maxLen", "data"}, DefBy: map[string]string{"bytesToInt": "dataLen"}, File: "prefix/binary.go", Recv: "binaryVarPrefixer", Func: "DecodeLength",
 			Params: []string{"maxLen", "dlen", "digits", "dataLen"},
 			Map:    ids(map[string]string{"p.Digits": "digits", "len(data)": "dlen", "len(prefBytes)": "digits"}, "maxLen", "dataLen")},
 		guardSite{Name: "binary_bytesToInt", File: "prefix/binary.go", Recv: "", Func: "bytesToInt",
 			Params: []string{"n"}, Map: ids(nil, "n")},
-		guardSite{Name: "hex_EncodeLength", File: "prefix/hex.go", Recv: "hexVarPrefixer", Func: "EncodeLength",
+		guardSite{Name: "hex_EncodeLength", Sig: []string{"p", "maxLen", "dataLen"}, File: "prefix/hex.go", Recv: "hexVarPrefixer", Func: "EncodeLength",
 			Params: []string{"maxLen", "dataLen", "digits"},
 			Map:    ids(map[string]string{"p.Digits": "digits"}, "maxLen", "dataLen")},
-		guardSite{Name: "hex_DecodeLength", File: "prefix/hex.go", Recv: "hexVarPrefixer", Func: "DecodeLength",
+		guardSite{Name: "hex_DecodeLength", Sig: []string{"p", "maxLen", "data"}, DefBy: map[string]string{"strconv.ParseUint": "dataLen"}, File: "prefix/hex.go", Recv: "hexVarPrefixer", Func: "DecodeLength",
 			Params: []string{"maxLen", "dlen", "digits", "dataLen"},
 			Map:    ids(map[string]string{"p.Digits": "digits", "len(data)": "dlen", "hex.EncodedLen(p.Digits)": "(digits * 2)"}, "maxLen", "dataLen")},
-		guardSite{Name: "ber_EncodeLength", File: "prefix/bertlv.go", Recv: "berTLVPrefixer", Func: "EncodeLength",
+		guardSite{Name: "ber_EncodeLength", Sig: []string{"p", "maxLen", "dataLen"}, File: "prefix/bertlv.go", Recv: "berTLVPrefixer", Func: "EncodeLength",
 			Params: []string{"maxLen", "dataLen"}, Map: ids(nil, "maxLen", "dataLen")},
-		guardSite{Name: "ber_DecodeLength", File: "prefix/bertlv.go", Recv: "berTLVPrefixer", Func: "DecodeLength",
+		guardSite{Name: "ber_DecodeLength", Sig: []string{"p", "maxLen", "data"}, File: "prefix/bertlv.go", Recv: "berTLVPrefixer", Func: "DecodeLength",
 			Params: []string{"maxLen", "firstByte", "v"},
 			Map: ids(map[string]string{"bits.LeadingZeros8(firstByte)>0": "decide (firstByte < 128)",
 				"bigLen.IsInt64()": "decide (v ≤ 9223372036854775807)", "bigLen.Int64()": "v"}, "maxLen", "firstByte")},
@@ -58,24 +58,24 @@ func genGuards() {
 	hlen := map[string]string{"h.Len": "len", "maxASCII4BytesLength": "(Iso8583.Gen.maxASCII4BytesLength : Int)",
 		"maxBCD2BytesLength": "(Iso8583.Gen.maxBCD2BytesLength : Int)", "MaxMessageLength": "(Iso8583.Gen.vmlMaxMessageLength : Int)"}
 	net := []guardSite{
-		{Name: "binary2_SetLength", File: "network/binary_2bytes.go", Recv: "Binary2Bytes", Func: "SetLength", Params: []string{"length"}, Map: ids(nil, "length")},
-		{Name: "vmlh_SetLength", File: "network/vml_header.go", Recv: "VMLH", Func: "SetLength", Params: []string{"length"}, Map: ids(nil, "length")},
-		{Name: "ascii4_WriteTo", File: "network/ascii_4bytes_header.go", Recv: "ASCII4BytesHeader", Func: "WriteTo", Params: []string{"len"}, Map: hlen},
-		{Name: "bcd2_WriteTo", File: "network/bcd_2bytes.go", Recv: "BCD2BytesHeader", Func: "WriteTo", Params: []string{"len"}, Map: hlen},
-		{Name: "vmlh_WriteTo", File: "network/vml_header.go", Recv: "VMLH", Func: "WriteTo", Params: []string{"len"}, Map: hlen},
-		{Name: "ascii4_ReadFrom", File: "network/ascii_4bytes_header.go", Recv: "ASCII4BytesHeader", Func: "ReadFrom", Params: []string{"read", "l"}, Map: ids(nil, "read", "l")},
-		{Name: "vmlh_ReadFrom", File: "network/vml_header.go", Recv: "VMLH", Func: "ReadFrom", Params: []string{"len"}, Map: hlen},
+		{Name: "binary2_SetLength", Sig: []string{"h", "length"}, File: "network/binary_2bytes.go", Recv: "Binary2Bytes", Func: "SetLength", Params: []string{"length"}, Map: ids(nil, "length")},
+		{Name: "vmlh_SetLength", Sig: []string{"h", "length"}, File: "network/vml_header.go", Recv: "VMLH", Func: "SetLength", Params: []string{"length"}, Map: ids(nil, "length")},
+		{Name: "ascii4_WriteTo", Sig: []string{"h", "w"}, File: "network/ascii_4bytes_header.go", Recv: "ASCII4BytesHeader", Func: "WriteTo", Params: []string{"len"}, Map: hlen},
+		{Name: "bcd2_WriteTo", Sig: []string{"h", "w"}, File: "network/bcd_2bytes.go", Recv: "BCD2BytesHeader", Func: "WriteTo", Params: []string{"len"}, Map: hlen},
+		{Name: "vmlh_WriteTo", Sig: []string{"h", "w"}, File: "network/vml_header.go", Recv: "VMLH", Func: "WriteTo", Params: []string{"len"}, Map: hlen},
+		{Name: "ascii4_ReadFrom", Sig: []string{"h", "r"}, DefBy: map[string]string{"io.ReadFull": "read", "strconv.Atoi": "l"}, File: "network/ascii_4bytes_header.go", Recv: "ASCII4BytesHeader", Func: "ReadFrom", Params: []string{"read", "l"}, Map: ids(nil, "read", "l")},
+		{Name: "vmlh_ReadFrom", Sig: []string{"h", "r"}, File: "network/vml_header.go", Recv: "VMLH", Func: "ReadFrom", Params: []string{"len"}, Map: hlen},
 	}
 	genGuardFile("GuardsNet.lean", net)
 
 	decSite := func(name, file, recv, dataName string) guardSite {
-		return guardSite{Name: name + "_Decode", File: file, Recv: recv, Func: "Decode",
+		return guardSite{Name: name + "_Decode", Sig: []string{"e", dataName, "length"}, File: file, Recv: recv, Func: "Decode",
 			Params: []string{"length", "dlen", "n", "r"},
-			Map: ids(map[string]string{"len(" + dataName + ")": "dlen", "hex.EncodedLen(length)": "(length * 2)"}, "length", "n", "r")}
+			Map:    ids(map[string]string{"len(" + dataName + ")": "dlen", "hex.EncodedLen(length)": "(length * 2)"}, "length", "n", "r")}
 	}
 	enc := []guardSite{
 		decSite("ascii", "encoding/ascii.go", "asciiEncoder", "data"),
-		{Name: "ascii_Encode", File: "encoding/ascii.go", Recv: "asciiEncoder", Func: "Encode", Params: []string{"r"}, Map: ids(nil, "r")},
+		{Name: "ascii_Encode", Sig: []string{"e", "data"}, File: "encoding/ascii.go", Recv: "asciiEncoder", Func: "Encode", Params: []string{"r"}, Map: ids(nil, "r")},
 		decSite("binary", "encoding/binary.go", "binaryEncoder", "data"),
 		decSite("bcd", "encoding/bcd.go", "bcdEncoder", "src"),
 		decSite("lbcd", "encoding/lbcd.go", "lBCDEncoder", "src"),
@@ -87,7 +87,7 @@ func genGuards() {
 	genGuardFile("GuardsEnc.lean", enc)
 
 	comp := []guardSite{
-		{Name: "composite_Unpack", File: "field/composite.go", Recv: "Composite", Func: "Unpack",
+		{Name: "composite_Unpack", Sig: []string{"f", "data"}, File: "field/composite.go", Recv: "Composite", Func: "Unpack",
 			Params: []string{"dataLen", "offset", "dlen", "read"},
 			Map:    ids(map[string]string{"len(data)": "dlen"}, "dataLen", "offset", "read")},
 	}
@@ -95,39 +95,39 @@ func genGuards() {
 
 	padM := map[string]string{"len(data)": "dlen", "length": "length"}
 	pad := []guardSite{
-		{Name: "left_Pad", File: "padding/left.go", Recv: "leftPadder", Func: "Pad", Params: []string{"dlen", "length"}, Map: padM},
-		{Name: "right_Pad", File: "padding/right.go", Recv: "rightPadder", Func: "Pad", Params: []string{"dlen", "length"}, Map: padM},
+		{Name: "left_Pad", Sig: []string{"p", "data", "length"}, File: "padding/left.go", Recv: "leftPadder", Func: "Pad", Params: []string{"dlen", "length"}, Map: padM},
+		{Name: "right_Pad", Sig: []string{"p", "data", "length"}, File: "padding/right.go", Recv: "rightPadder", Func: "Pad", Params: []string{"dlen", "length"}, Map: padM},
 	}
 	genGuardFile("GuardsPad.lean", pad)
 
 	tlv := []guardSite{
-		{Name: "tlv_unpackSubfieldsByTag", File: "field/composite.go", Recv: "Composite", Func: "unpackSubfieldsByTag",
+		{Name: "tlv_unpackSubfieldsByTag", Sig: []string{"f", "data"}, File: "field/composite.go", Recv: "Composite", Func: "unpackSubfieldsByTag",
 			Params: []string{"offset", "dlen", "fieldLength", "read", "start", "known:Bool", "skip:Bool"},
 			Map: ids(map[string]string{"len(data)": "dlen", "ok": "known", "f.skipUnknownTLVTags()": "skip"},
 				"offset", "fieldLength", "read", "start")},
-		{Name: "bitmapped_unpackSubfieldsByBitmap", File: "field/composite.go", Recv: "Composite", Func: "unpackSubfieldsByBitmap",
+		{Name: "bitmapped_unpackSubfieldsByBitmap", Sig: []string{"f", "data"}, File: "field/composite.go", Recv: "Composite", Func: "unpackSubfieldsByBitmap",
 			Params: []string{"i", "bitmapLen", "isSet:Bool", "found:Bool"},
-			Map: ids(map[string]string{"f.bitmap().Len()": "bitmapLen", "f.bitmap().IsSet(i)": "isSet", "ok": "found"}, "i")},
+			Map:    ids(map[string]string{"f.bitmap().Len()": "bitmapLen", "f.bitmap().IsSet(i)": "isSet", "ok": "found"}, "i")},
 	}
 	genGuardFile("GuardsTlv.lean", tlv)
 
 	bm := map[string]string{"f.spec.DisableAutoExpand": "dae", "len(f.data)": "dataLen", "f.bitmapLength": "blockLen"}
 	bitmap := []guardSite{
-		{Name: "bitmap_IsBitmapPresenceBit", File: "field/bitmap.go", Recv: "Bitmap", Func: "IsBitmapPresenceBit",
+		{Name: "bitmap_IsBitmapPresenceBit", Sig: []string{"f", "n"}, File: "field/bitmap.go", Recv: "Bitmap", Func: "IsBitmapPresenceBit",
 			Params: []string{"dae:Bool", "n", "blockLen"}, Map: ids(bm, "n")},
-		{Name: "bitmap_IsSet", File: "field/bitmap.go", Recv: "Bitmap", Func: "IsSet",
+		{Name: "bitmap_IsSet", Sig: []string{"f", "n"}, File: "field/bitmap.go", Recv: "Bitmap", Func: "IsSet",
 			Params: []string{"n", "dataLen", "bitIsOn:Bool"}, Map: ids(map[string]string{"len(f.data)": "dataLen",
 				"f.data[(n-1)/8]&(1<<(uint(7-(n-1))%8))!=0": "bitIsOn"}, "n")},
-		{Name: "bitmap_Set", File: "field/bitmap.go", Recv: "Bitmap", Func: "Set",
+		{Name: "bitmap_Set", Sig: []string{"f", "n"}, File: "field/bitmap.go", Recv: "Bitmap", Func: "Set",
 			Params: []string{"dae:Bool", "n", "dataLen", "blockLen", "i"}, Map: ids(map[string]string{"f.spec.DisableAutoExpand": "dae", "len(f.data)": "dataLen", "f.bitmapLength": "blockLen"}, "n", "i")},
-		{Name: "message_unpack", File: "message.go", Recv: "Message", Func: "unpack",
+		{Name: "message_unpack", Sig: []string{"m", "src"}, File: "message.go", Recv: "Message", Func: "unpack",
 			Params: []string{"i", "bitmapLen", "presence:Bool", "isSet:Bool", "found:Bool"},
 			Map: ids(map[string]string{"m.bitmap().Len()": "bitmapLen", "m.bitmap().IsBitmapPresenceBit(i)": "presence",
 				"m.bitmap().IsSet(i)": "isSet", "ok": "found"}, "i")},
-		{Name: "bitmap_Unpack", File: "field/bitmap.go", Recv: "Bitmap", Func: "Unpack",
+		{Name: "bitmap_Unpack", Sig: []string{"f", "data"}, DefName: map[string]string{"f.spec.Enc.Decode": "decoded"}, File: "field/bitmap.go", Recv: "Bitmap", Func: "Unpack",
 			Params: []string{"dae:Bool", "decodedLen", "firstBitClear:Bool"},
-			Map: map[string]string{"f.spec.DisableAutoExpand": "dae", "len(decoded)": "decodedLen", "decoded[0]&firstBitOn==0": "firstBitClear"}},
-		{Name: "message_pack", File: "message.go", Recv: "Message", Func: "pack",
+			Map:    map[string]string{"f.spec.DisableAutoExpand": "dae", "len(decoded)": "decodedLen", "decoded[0]&firstBitOn==0": "firstBitClear"}},
+		{Name: "message_pack", Sig: []string{"m"}, File: "message.go", Recv: "Message", Func: "pack",
 			Params: []string{"id", "presence:Bool", "isSet:Bool", "found:Bool"},
 			Map: map[string]string{"id": "id", "i": "id", "m.bitmap().IsBitmapPresenceBit(id)": "presence",
 				"m.bitmap().IsBitmapPresenceBit(i)": "presence", "m.bitmap().IsSet(id)": "isSet", "ok": "found"}},
